@@ -15,6 +15,8 @@ def main(argv):
     from . import obligations as O
     if argv and argv[0] == "--worker":
         req = json.loads(sys.stdin.read())
+        for h in req.get("history") or []:
+            O.run_concrete(req["harness"], req["params"], O._unjson(h), req.get("route", "text"))
         res = O.run_concrete(req["harness"], req["params"], O._unjson(req["values"]), req.get("route", "text"))
         sys.stdout.write("\n" + json.dumps(res) + "\n")
         return 0
@@ -34,6 +36,9 @@ def main(argv):
             return 0
         print(f"VIOLATION property={rec.get('property')} replay={path}")
         return 1
+    for h in (rec.get("concrete_replay") or {}).get("history") or []:
+        # a violation that shows only after an earlier run in the same process
+        O.run_concrete(rec["harness"], rec["params"], O._unjson(h), "text")
     res = O.run_concrete(rec["harness"], rec["params"], values, "text")
     print(json.dumps({"property": rec.get("property"), "obligation": rec.get("obligation"), "values": rec["values"], "result": res}, indent=1)[:6000])
     if res.get("ok") is True:
